@@ -19,6 +19,7 @@ var checks = map[string]func(tier string){
 	"C04": sworld.RunC04,
 	"C05": sworld.RunC05,
 	"C06": sworld.RunC06,
+	"C08": sworld.RunC08,
 	"C09": sworld.RunC09,
 	"C11": sworld.RunC11,
 	"C12": sworld.RunC12,
